@@ -7,7 +7,7 @@ from . import script_common as sc
 
 PLAN = {
     # prop: (level, checks, quick layers, thorough layers, namemaps quick, namemaps thorough, layouts, sim quick, sim thorough)
-    'C01': ('translation_validation', ['c01'], ['term', 'pair_small', 'shape3_small', 'bool', 'verb', 'vstmt', 'merge2_small'], ['term', 'pair', 'shape3', 'shape4', 'bool', 'verb', 'vstmt', 'merge2', 'merge3'],
+    'C01': ('translation_validation', ['c01'], ['term', 'pair_small', 'shape3_small', 'bool', 'verb', 'verb3', 'nsfunc', 'vstmt', 'merge2_small'], ['term', 'pair', 'shape3', 'shape4', 'bool', 'verb', 'verb3', 'nsfunc', 'vstmt', 'merge2', 'merge3'],
             ['plain', 'adversarial'], ['plain', 'adversarial', 'adversarial2', 'long'], ['canon'], 600, 20000),
     'C03': ('model_checking', ['c03'], ['term', 'pair_small', 'vstmt', 'merge2'], ['term', 'pair', 'vstmt', 'merge2', 'merge3', 'shape3'],
             ['plain', 'adversarial2', 'funcnames'], ['plain', 'adversarial', 'adversarial2', 'funcnames', 'long'], ['canon'], 600, 20000),
@@ -15,9 +15,9 @@ PLAN = {
             ['plain'], ['plain', 'adversarial'], ['canon'], 300, 10000),
     'C14': ('translation_validation', ['c14'], ['term', 'pair_small', 'shape3_small', 'bool', 'verb', 'vstmt', 'merge2_small'], ['term', 'pair', 'shape3', 'bool', 'verb', 'vstmt', 'merge2', 'merge3'],
             ['plain', 'adversarial'], ['plain', 'adversarial', 'adversarial2'], R.C14_LAYOUTS, 300, 10000),
-    'C15': ('translation_validation', ['c15'], ['term', 'pair_small', 'verb', 'vstmt', 'merge2_small'], ['term', 'pair', 'shape3', 'verb', 'vstmt', 'merge2'],
+    'C15': ('translation_validation', ['c15'], ['term', 'pair_small', 'verb', 'nsfunc', 'vstmt', 'merge2_small'], ['term', 'pair', 'shape3', 'verb', 'nsfunc', 'vstmt', 'merge2'],
             ['plain'], ['plain', 'adversarial'], ['canon'], 200, 5000),
-    'C20': ('model_checking', ['c20'], ['term', 'pair_small', 'shape3_small', 'bool', 'merge2_small'], ['term', 'pair', 'shape3', 'bool', 'merge2', 'merge3'],
+    'C20': ('model_checking', ['c20'], ['term', 'pair_small', 'shape3_small', 'bool', 'verb3', 'nsfunc', 'merge2_small'], ['term', 'pair', 'shape3', 'bool', 'verb3', 'nsfunc', 'merge2', 'merge3'],
             ['plain'], ['plain', 'adversarial'], ['canon'], 300, 10000),
 }
 
